@@ -552,6 +552,105 @@ struct Program
   }
 };
 
+// ---- true concurrency: fresh OS threads run attach / scope / detach rounds at the same time over the shared contexts;
+// every thread checks each of its own observations against a local reference of the stack rule
+// (most recent occurrence, unwind above), so nothing another thread does may become visible
+static std::string conc_thread(const Program &prog, size_t u, size_t rounds)
+{
+  const size_t nctx = prog.ctxs.size();
+  auto fail = [&](size_t r, const char *what) {
+    return "t" + std::to_string(u) + ":r" + std::to_string(r) + ":" + what;
+  };
+  for (size_t r = 0; r < rounds; r++)
+  {
+    std::vector<Context> ref;  // bottom .. top
+    std::vector<nostd::unique_ptr<context::Token>> toks;
+    std::vector<Context> tok_ctx;
+    std::vector<std::unique_ptr<trace_api::Scope>> scopes;
+    std::vector<Context> scope_ctx;
+    size_t depth = 1 + (7 * u + 13 * r) % 40;
+    for (size_t i = 0; i < depth; i++)
+    {
+      if (i % 5 == 4)
+      {
+        nostd::shared_ptr<trace_api::Span> sp = g_pools->sp[(u + i) % kPool];
+        scopes.emplace_back(new trace_api::Scope(sp));
+        Context cur = context::RuntimeContext::GetCurrent();
+        if (trace_api::Tracer::GetCurrentSpan().get() != sp.get()) return fail(r, "scope-span");
+        if (!ref.empty() && cur == ref.back()) return fail(r, "scope-context-not-new");
+        ref.push_back(cur);
+        scope_ctx.push_back(cur);
+      }
+      else
+      {
+        const Context &c = prog.ctxs[(u + r + 3 * i) % nctx];
+        toks.push_back(context::RuntimeContext::Attach(c));
+        tok_ctx.push_back(c);
+        ref.push_back(c);
+        if (!(context::RuntimeContext::GetCurrent() == c)) return fail(r, "attach-current");
+      }
+      if (my_stack().size_ != ref.size()) return fail(r, "depth");
+    }
+    auto ref_detach = [&](const Context &c) -> bool {
+      for (size_t i = ref.size(); i > 0; i--)
+        if (ref[i - 1] == c)
+        {
+          ref.resize(i - 1);
+          return true;
+        }
+      return ref.empty() && c == Context();
+    };
+    auto check = [&]() {
+      Context want = ref.empty() ? Context() : ref.back();
+      return my_stack().size_ == ref.size() && context::RuntimeContext::GetCurrent() == want;
+    };
+    // odd rounds: first an out-of-order detach from the middle (unwinds everything above it)
+    if (r % 2 == 1 && !toks.empty())
+    {
+      size_t m  = toks.size() / 2;
+      bool want = ref_detach(tok_ctx[m]);
+      if (context::RuntimeContext::Detach(*toks[m]) != want) return fail(r, "middle-detach-result");
+      if (!check()) return fail(r, "middle-detach-state");
+    }
+    for (size_t i = toks.size(); i > 0; i--)
+    {
+      bool want = ref_detach(tok_ctx[i - 1]);
+      if (context::RuntimeContext::Detach(*toks[i - 1]) != want) return fail(r, "detach-result");
+      if (!check()) return fail(r, "detach-state");
+    }
+    for (size_t i = scopes.size(); i > 0; i--)
+    {
+      ref_detach(scope_ctx[i - 1]);
+      scopes[i - 1].reset();
+      if (!check()) return fail(r, "scope-release-state");
+    }
+    // the token destructors detach once more: their contexts are gone from the stack, so nothing may change
+    toks.clear();
+    if (!ref.empty() || !check()) return fail(r, "round-not-balanced");
+  }
+  return "";
+}
+
+static std::string run_conc(const Program &prog, size_t n, size_t rounds)
+{
+  std::vector<std::string> res(n);
+  std::atomic<size_t> ready{0};
+  std::atomic<bool> go{false};
+  std::vector<std::thread> ths;
+  for (size_t u = 0; u < n; u++)
+    ths.emplace_back([&, u] {
+      ready.fetch_add(1);
+      while (!go.load(std::memory_order_acquire)) std::this_thread::yield();
+      res[u] = conc_thread(prog, u, rounds);
+    });
+  while (ready.load() < n) std::this_thread::yield();
+  go.store(true, std::memory_order_release);
+  for (auto &th : ths) th.join();
+  for (auto &r : res)
+    if (!r.empty()) return "conc=FAIL:" + r;
+  return "conc=ok";
+}
+
 static std::string handle_ctx(const std::vector<std::string> &toks)
 {
   auto ops = vh::split_ops(toks, 1);
@@ -587,10 +686,21 @@ static std::string handle_ctx(const std::vector<std::string> &toks)
       break;
     }
     std::string line;
+    std::string conc_obs;
+    if (op[0] == "conc")
+    {
+      size_t rounds;
+      if (op.size() != 3 || !nat_tok(op[2], rounds) || rounds > 50)
+      {
+        ok = false;
+        break;
+      }
+      conc_obs = run_conc(prog, n, rounds);  // the baton workers idle meanwhile
+    }
     baton.run_on(t, [&] {
       size_t before = prog.ctxs.size();
-      std::string obs;
-      if (!prog.exec(op, obs))
+      std::string obs = conc_obs;
+      if (conc_obs.empty() && !prog.exec(op, obs))
       {
         ok = false;
         return;
